@@ -164,6 +164,8 @@ class EnvBase:
             self.partners[key] = op
             self.snap_ops[key] = snap_op(op)
         self.used.add(key)
+        if self.arr.touched is not None:     # the partner wraps a caller-owned array (recorded on every use, not only on creation)
+            self.arr.touched.add({"dense": f"M{n}", "diag": f"d{n}"}.get(what, "M2"))
         return self.partners[key]
 
 
